@@ -368,6 +368,23 @@ func ValueSweeps() []SweepCase {
 				out = append(out, SweepCase{cfg, al, ops, "magic-spelling", fmt.Sprintf("%s/program/%d", magic, align)})
 			}
 		}
+		// 70000 channel messages with 0..2 two-byte messages in front (the sizes
+		// of the messages so far pass every multiple of a power of two exactly,
+		// for one of the three), and 70000 two-byte messages
+		for lead := 0; lead <= 3; lead++ {
+			al := []Msg{{"a", []byte{0x90, 0x40, 0x41}}, {"b", []byte{0x90, 0x41, 0x00}}, {"p", []byte{0xC0, 0x05}}, {"q", []byte{0xC0, 0x06}}}
+			ne := 70000
+			ops := make([]Op, 0, ne+2)
+			for e := 0; e < ne; e++ {
+				m := e % 2
+				if e < lead || lead == 3 {
+					m += 2
+				}
+				ops = append(ops, Op{Kind: OpAdd, D: uint32(e % 2), M1: m})
+			}
+			ops = append(ops, Op{Kind: OpClose, D: 1}, Op{Kind: OpSMFAdd})
+			out = append(out, SweepCase{cfg, al, ops, "event-sizes", lead})
+		}
 		// many events in one track (chunk bodies beyond 64 KiB, event counts beyond 65535)
 		for _, ne := range []int{255, 256, 257, 4095, 4096, 65535, 65536, 65537} {
 			al := []Msg{{"a", []byte{0x90, 0x40, 0x41}}, {"b", []byte{0x90, 0x41, 0x00}}, {"t", smf.MetaText("x")}}
